@@ -25,7 +25,7 @@ def value_for(rng, T, f, undecodable_ok=True):
         # (non-ASCII near-misses only for pure enumerations: a numeric converter in front would make the model silent)
         return rng.choice(["", "Bogus", "on", "On ", rng.choice(mem)[1] + "x"] + (["Ｏn"] if conv["k"] == "enum" else []))
     if k["k"] == "str":
-        return rng.choice(["", "Living Room", "a:b=c", "ÄÖÜ ß", "𝄞 tune", "@x", "x" * rng.randint(1, 40), "12", " lead", "= ="])
+        return rng.choice(["", "Living Room", "a:b=c", "ÄÖÜ ß", "𝄞 tune", "@x", "x" * rng.randint(1, 40), "12", " lead", "= =", "two\nlines", "trail "])
     if k["k"] in ("int", "intOrNone"):
         if r < 0.85 or not undecodable_ok:
             return str(rng.randint(-300, 300))
